@@ -12,10 +12,15 @@ def parseItem (w : String) : Option Item :=
     | some r => some { result := some r, err := none, cancelDuring := cancel }
     | none => none
   else if w.startsWith "e" then
-    match (w.drop 1).toString.toNat? with
-    | some i => some { result := none, err := some (.base i), cancelDuring := cancel }
-    | none => none
-  else if w.startsWith "f" then
+    -- e<id> or e<id>:<partial result>
+    match (w.drop 1).toString.splitOn ":" with
+    | [i] => (i.toNat?).map fun i => { result := none, err := some (.base i), cancelDuring := cancel }
+    | [i, r] => do
+      let i ← i.toNat?
+      let r ← r.toNat?
+      some { result := some r, err := some (.base i), cancelDuring := cancel }
+    | _ => none
+  else if w.startsWith "f" || w.startsWith "F" then   -- F: the payload wraps another error (same model: the payload is opaque)
     match (w.drop 1).toString.splitOn ":" with
     | [d, i, r] => do
       let d ← d.toNat?
@@ -50,7 +55,9 @@ def step (_ : Unit) (w : List String) : Option (Unit × String × List String) :
       (if r.cs.length ≥ 31 then ["saturated"] else []) ++
       (if items.any (·.cancelDuring) then ["cancel_during_call"] else []) ++
       (if wc.isSome && r.err == .ctx then ["cancel_during_wait"] else []) ++
-      (if rate ≤ 0 then ["default_rate"] else [])
+      (if rate ≤ 0 then ["default_rate"] else []) ++
+      (if items.any (fun it => it.result.isSome && (match it.err with | some (.base _) => true | _ => false)) && r.err == .ctx then ["partial_result_discarded_on_cancel"] else []) ++
+      (if allItems.any (·.startsWith "F") then ["payload_wraps_another_error"] else [])
     let first := s!"res={res} err={outStr r.err} calls={r.calls} cs={fmtNats r.cs} rate={if r.cs.isEmpty then 0 else effRate}"
     if !second then some ((), first, tags) else
     -- the same returned function invoked again: a fresh counter; the context stays cancelled if it was
@@ -64,6 +71,10 @@ def step (_ : Unit) (w : List String) : Option (Unit × String × List String) :
     let c ← c.toNat?
     let d ← d.toInt?
     some ((), if validDelay rate c d then "ok" else "bad", if c ≥ 31 then ["c_ge_31"] else [])
+  | ["unpackw", d, i] => do
+    let d ← d.toNat?
+    let i ← i.toNat?
+    some ((), s!"{outStr (.er (unpack (wrap d (.base i))))} fatal={isFatal (wrap d (.base i))}", ["payload_wraps_another_error"])
   | ["unpack", d, i] => do
     let d ← d.toNat?
     let i ← i.toNat?
